@@ -39,7 +39,7 @@ class Contract:
     def __init__(self, qualname, types=None, requires=None, ensures=None, returns=None, reads=None,
                  modifies=None, raises="never", props=None, result_type=None, native_effect=None,
                  assumed=False, note=None, alternatives=None, setup=None, inline_in_callers=False,
-                 hints=None, lets=None):
+                 hints=None, lets=None, use_at_calls=True, pure=False):
         self.qualname = qualname
         self.types = types or {}
         self.requires = requires or {}
@@ -56,6 +56,8 @@ class Contract:
         self.setup = setup
         self.hints = hints or []
         self.lets = lets or {}
+        self.pure = pure  # True: the call must leave every object that existed before it unchanged
+        self.use_at_calls = use_at_calls  # False: proved against its body, but callers execute the real body
 
     def bind_lets(self, ex, st, env):
         for k, src in self.lets.items():
@@ -612,6 +614,12 @@ def make_symbolic(ex, st, name, ty):
             alts.append(("__series__", []))
         elif t == "candle":
             alts.append(("__candle__", []))
+        elif t == "indicator":
+            alts.append(("__indicator__", []))
+        elif t == "symcandle":
+            alts.append(("__symcandle__", []))
+        elif t == "symname":
+            alts.append(("__symname__", []))
         else:
             raise Unsupported(f"symbolic input type {t}")
     return alts
@@ -859,3 +867,55 @@ def _attr(ev, node):
     if isinstance(c, CandleAt):
         return ev.heap[c.series.oid].attr_value(name, c.j)
     raise Unsupported("attr of non-candle")
+
+
+@specfn("DictKey")
+def _dictkey(ev, node):
+    """DictKey(d, k): the k-th key of the (arbitrary, duplicate free) enumeration of a symbolic dict"""
+    from .symdict import SKey, SymDictP
+
+    d, k = ev.e(node.args[0]), ev.e(node.args[1])
+    p = ev.heap[d.oid]
+    if not isinstance(p, SymDictP):
+        raise Unsupported("DictKey of a non symbolic dict")
+    return SKey(p.keys(to_int_term(k)))
+
+
+@specfn("Elem")
+def _elem(ev, node):
+    """Elem(lst, k): element k of a (possibly abstract) list value"""
+    from .exec import AList
+
+    lst, k = ev.e(node.args[0]), ev.e(node.args[1])
+    if isinstance(lst, AList):
+        if lst.keep is not None:
+            raise Unsupported("Elem of a filtered list")
+        return lst.elem(to_int_term(k))
+    if isinstance(lst, Ref) and isinstance(ev.heap[lst.oid], ListP):
+        return ev.heap[lst.oid].items[k]
+    raise Unsupported("Elem of non-list")
+
+
+@specfn("LenOf")
+def _lenof(ev, node):
+    from .exec import AList
+
+    lst = ev.e(node.args[0])
+    if isinstance(lst, AList) and lst.keep is None:
+        return SInt(lst.n)
+    if isinstance(lst, Ref) and isinstance(ev.heap[lst.oid], ListP):
+        return len(ev.heap[lst.oid].items)
+    if isinstance(lst, Ref) and isinstance(ev.heap[lst.oid], SeriesP):
+        return SInt(ev.heap[lst.oid].length)
+    raise Unsupported("LenOf")
+
+
+@specfn("isinstance_str")
+def _isstr(ev, node):
+    return isinstance(ev.e(node.args[0]), (str, Tmpl))
+
+
+@specfn("isdictobj")
+def _isdictobj(ev, node):
+    v = ev.e(node.args[0])
+    return isinstance(v, Ref) and isinstance(ev.heap[v.oid], DictP)
